@@ -219,7 +219,7 @@ def run_family(sess, M, nroots, dfs, fam, fsroot=False):
                           {'mindepth': mi, 'maxdepth': ma, 'parents': par, 'kinds': kind, 'trace': trace},
                           cli_replay(fs, m, mi, ma, dfs, nroots), fam)
 
-    n, complete = ex.explore(run, on_path, time_budget=(200 if sess.tier == 'quick' else 1500))
+    n, complete = ex.explore(run, on_path, time_budget=(400 if sess.tier == 'quick' else 1500))
     if not complete:
         sess.inconclusive('%s M=%d' % (fam, M), 'path exploration exceeded its time budget after %d paths' % n, fam)
     elif not viol and not stats.get('bad'):
